@@ -153,7 +153,7 @@ def _check_function(run: Run, ctx: TermCtx, fi: FuncInfo, seen) -> None:
         # method calls
         if isinstance(c.func, ast.Attribute):
             meth = c.func.attr
-            if meth in ("hexdigest", "digest", "hex", "update", "extend"):
+            if meth in ("hexdigest", "digest", "hex", "update", "extend", "append"):
                 run.ok("C20.R3", fi, f"method .{meth}")
                 continue
             if meth == "encode":
